@@ -330,3 +330,65 @@ class IndexedCacheCheck(LibModel):
 
 
 CONTRACTS += [IndexedCacheCheck]
+
+
+class IndexedCacheClear(LibModel):
+    """IndexedCache.clear(): afterwards nothing is stored and nothing is covered: the index tree, the coverage list AND the
+    flat store are all emptied (C20: check / retrieve agree after a clear; C04 / C14: a cleared registry is empty)"""
+    qual = 'cache_data:IndexedCache.clear'
+    cls = 'IndexedCache'
+    props = ('C20', 'C04', 'C14')
+    modes = ('sound',)
+    PARTS = ('cache', 'seen_set', 'flat_cache')
+
+    def modenv(self):
+        return base_modenv()
+
+    def setup(self, eng):
+        st = State()
+        me = z3.Const('self', Z.Node)
+        st.ghost['self'] = me
+        st.locals['self'] = ZV(me, 'node')
+        st.ghost['cleared'] = []
+        return [st]
+
+    def getattr(self, eng, st, recv, name):
+        if isinstance(recv, ZV) and recv.ty == 'node' and recv.t.eq(st.ghost['self']):
+            if name in self.PARTS:
+                return [(st, Obj('part', {'name': name}))]
+            if name in ('_keys', 'keys'):
+                return [(st, Obj('keys', {}))]
+        if isinstance(recv, Obj) and recv.kind == 'part':
+            return [(st, Meth(recv, name))]
+        return super().getattr(eng, st, recv, name)
+
+    def setattr(self, eng, st, recv, name, v):
+        if isinstance(recv, ZV) and recv.ty == 'node' and name == 'keys':
+            # the keys setter re-sorts the keys and clears the index tree and the coverage list (not the flat store)
+            st = st.clone()
+            st.ghost['cleared'] = st.ghost['cleared'] + ['cache', 'seen_set']
+            return [st]
+        if isinstance(recv, ZV) and recv.ty == 'node' and name in ('enter_count', 'search_count'):
+            return [st]
+        return None
+
+    def call(self, eng, st, f, args, kwargs, node):
+        if isinstance(f, Meth) and isinstance(f.recv, Obj) and f.recv.kind == 'part' and f.name == 'clear':
+            st = st.clone()
+            st.ghost['cleared'] = st.ghost['cleared'] + [f.recv.data['name']]
+            return [(st, NONE)]
+        return super().call(eng, st, f, args, kwargs, node)
+
+    def on_exit(self, eng, o):
+        st = o.st
+        if o.sig not in (NEXT, RETURN):
+            eng.oblige(st, "C20/clear/finishes-normally", z3.BoolVal(False))
+            return
+        for part in self.PARTS:
+            eng.oblige(st, f"C20/clear/empties-the-{part.replace('_', '-')}", z3.BoolVal(part in st.ghost['cleared']))
+
+    def signature(self, ob, model):
+        return {}
+
+
+CONTRACTS = CONTRACTS + [IndexedCacheClear]
